@@ -56,7 +56,7 @@ type c12Inj struct {
 	DelayUs int    `json:"delay_us,omitempty"`
 }
 type c12Cmd struct {
-	Op    string `json:"op"` // round | deliver | shutdown | arm
+	Op    string `json:"op"` // round | deliver | shutdown | arm | hold | release
 	K     int    `json:"k,omitempty"`
 	Point int    `json:"point,omitempty"`
 	N     int    `json:"n,omitempty"`
@@ -76,6 +76,7 @@ type c12In struct {
 	Inj       c12Inj    `json:"inj"`
 	Seed      uint64    `json:"seed,omitempty"`
 	FailAt    int       `json:"fail_at,omitempty"` // stress: handler call that fails (0 = none)
+	SlowAt    int       `json:"slow_at,omitempty"` // stress: handler call that takes 2 ms and during which Shutdown is called (0 = none)
 }
 
 type c12Lev struct {
@@ -119,7 +120,8 @@ type c12Ctx struct {
 	overlap  int32
 	runRet   int32
 	term     func() bool
-	innerRet func() bool // all inner sources returned from Run (multiplexed); nil = n/a
+	lateIf   func() bool // when set: a handler call is late iff this holds at its begin (multiplexed scenarios: IsTerminating)
+	prePoint func(p int) // called when a schedule point is reached, before it is logged
 	after    int32
 	failed   int32 // a handler call returned an error
 	onPoint  func(p, count int)
@@ -146,6 +148,9 @@ func (c *c12Ctx) point(name string) {
 	if !ok {
 		return
 	}
+	if c.prePoint != nil {
+		c.prePoint(p)
+	}
 	c.mu.Lock()
 	c.pcount[p]++
 	n := c.pcount[p]
@@ -162,7 +167,12 @@ func (c *c12Ctx) begin(src, b int) int {
 	if atomic.AddInt32(&c.active, 1) > 1 {
 		atomic.StoreInt32(&c.overlap, 1)
 	}
-	if atomic.LoadInt32(&c.runRet) == 1 && c.term != nil && c.term() && (c.innerRet == nil || c.innerRet()) {
+	if c.lateIf != nil {
+		if c.lateIf() {
+			atomic.AddInt32(&c.after, 1)
+		}
+	} else if atomic.LoadInt32(&c.runRet) == 1 && c.term != nil && c.term() {
+		// no handler call begins after Run returned and Terminated was reached (for every kind of source)
 		atomic.AddInt32(&c.after, 1)
 	}
 	c.mu.Lock()
@@ -235,11 +245,13 @@ type c12Src struct {
 	sleepUs  int
 	preJoin  func() // joining: called before delivering a Join event
 	selfFail chan struct{}
+	entering chan struct{} // signalled (non-blocking) just before each handler call
 }
 
 func newC12Src(ctx *c12Ctx, id int, script []c12Ev, h bstream.Handler, tokens bool) *c12Src {
 	s := &c12Src{Shutter: shutter.New(), ctx: ctx, id: id, script: script, h: h,
-		ack: make(chan struct{}, 1), idleCh: make(chan struct{}), done: make(chan struct{}), selfFail: make(chan struct{}, 1)}
+		ack: make(chan struct{}, 1), idleCh: make(chan struct{}), done: make(chan struct{}), selfFail: make(chan struct{}, 1),
+		entering: make(chan struct{}, 1)}
 	if tokens {
 		s.token = make(chan struct{})
 	}
@@ -282,6 +294,10 @@ func (s *c12Src) Run() {
 		}
 		if ev.Join && s.preJoin != nil {
 			s.preJoin()
+		}
+		select {
+		case s.entering <- struct{}{}:
+		default:
 		}
 		err := s.h.ProcessBlock(c12Block(s.id, ev), nil)
 		if err != nil {
@@ -331,6 +347,39 @@ func (s *c12Src) deliver() bool {
 	case <-time.After(c12Watchdog):
 	}
 	return true
+}
+
+// deliverUntil lets a token-driven source perform its next script event and waits for its completion (1) or for a
+// signal on sig, whichever comes first (2: the source is then still busy: inside a parked handler call, or on its way
+// into the handler wrapper); 0 when the source cannot deliver
+func (s *c12Src) deliverUntil(sig chan struct{}) int {
+	if atomic.LoadInt32(&s.expect) == 1 {
+		for i := 0; i < 20000 && atomic.LoadInt32(&s.started) == 0; i++ {
+			time.Sleep(50 * time.Microsecond)
+		}
+	}
+	if atomic.LoadInt32(&s.started) == 0 {
+		return 0
+	}
+	select {
+	case <-sig:
+	default:
+	}
+	select {
+	case <-s.done:
+		return 0
+	case <-s.idleCh:
+		return 0
+	case s.token <- struct{}{}:
+	}
+	select {
+	case <-s.ack:
+		return 1
+	case <-sig:
+		return 2
+	case <-time.After(c12Watchdog):
+	}
+	return 1
 }
 
 // ---------------------------------------------------------------- generic driver
@@ -731,11 +780,42 @@ func c12ExecMux(in *c12In) *c12Obs {
 	var shutOnce sync.Once
 	shutdownCalled := int32(0)
 	doShutdown := func() { atomic.StoreInt32(&shutdownCalled, 1); mx.Shutdown(nil) }
+	// hold / release: the next handler call to begin parks inside the handler (its goroutine keeps handlerLock)
+	var holdArmed int32
+	heldSig := make(chan struct{}, 1)
+	var heldRel chan struct{}
+	var heldMu sync.Mutex
+	// while a call is parked and another inner source waits for handlerLock, that source is kept at mux.handler_locked
+	// (before the point is logged) until the goroutine of the parked call is done, so that the log is sequential
+	var gateOn int32
+	var gateCh chan struct{}
+	ctx.prePoint = func(p int) {
+		if p == 25 && atomic.LoadInt32(&gateOn) == 1 {
+			heldMu.Lock()
+			g := gateCh
+			heldMu.Unlock()
+			select {
+			case <-g:
+			case <-time.After(2 * c12Watchdog):
+			}
+		}
+	}
 	h := ctx.handler(func(n int) {
 		a := armed.Load().(c12Cmd)
 		if a.Op == "arm" && a.Point == 27 && n == a.N {
 			armed.Store(c12Cmd{})
 			doShutdown()
+		}
+		if atomic.CompareAndSwapInt32(&holdArmed, 1, 0) {
+			rel := make(chan struct{})
+			heldMu.Lock()
+			heldRel = rel
+			heldMu.Unlock()
+			heldSig <- struct{}{}
+			select {
+			case <-rel:
+			case <-time.After(4 * c12Watchdog):
+			}
 		}
 	}, nil)
 	var supplyMu sync.Mutex
@@ -759,6 +839,7 @@ func c12ExecMux(in *c12In) *c12Obs {
 		factories = append(factories, mkFactory(i))
 	}
 	mx = bstream.NewMultiplexedSource(factories, h)
+	var release func(underLock bool)
 	ctx.onPoint = func(p, n int) {
 		if p == 24 && !mx.IsTerminating() {
 			// LockedInit accepted: the source created last is being started
@@ -781,6 +862,9 @@ func c12ExecMux(in *c12In) *c12Obs {
 				for !mx.IsTerminating() {
 					time.Sleep(20 * time.Microsecond)
 				}
+				// a parked handler call is released now (the main goroutine is waiting for this round to end): the
+				// source waiting for handlerLock makes its test while the source is terminating, not yet terminated
+				release(true)
 			default:
 				doShutdown()
 			}
@@ -803,20 +887,9 @@ func c12ExecMux(in *c12In) *c12Obs {
 	bstream.SetVerifHook(ctx.point)
 	runDone := make(chan struct{})
 	ctx.term = mx.IsTerminated
-	ctx.innerRet = func() bool {
-		ctx.mu.Lock()
-		defer ctx.mu.Unlock()
-		for _, s := range ctx.inners {
-			if atomic.LoadInt32(&s.started) == 1 {
-				select {
-				case <-s.done:
-				default:
-					return false
-				}
-			}
-		}
-		return true
-	}
+	// scenarios are sequential: a handler call that begins while the terminating channel is closed is a late call
+	// (the wrapper tests the channel and calls the handler with no schedule point in between)
+	ctx.lateIf = mx.IsTerminating
 	go func() {
 		defer func() {
 			atomic.StoreInt32(&ctx.runRet, 1)
@@ -845,6 +918,58 @@ func c12ExecMux(in *c12In) *c12Obs {
 		}
 		return ctx.inners[k]
 	}
+	checkFail := func() {
+		if atomic.LoadInt32(&ctx.failed) == 1 && !failChecked {
+			// the handler just failed: by now (no other Shutdown needed) the multiplexed source must be
+			// terminated and every inner source it started must be shut down
+			failChecked = true
+			if !mx.IsTerminated() {
+				failShutOK = false
+			}
+			ctx.mu.Lock()
+			for _, s := range ctx.inners {
+				if atomic.LoadInt32(&s.expect) == 1 && !s.IsTerminating() {
+					failShutOK = false
+				}
+			}
+			ctx.mu.Unlock()
+		}
+	}
+	held, waiter := -1, -1
+	waitAck := func(k int) {
+		if s := inner(k); s != nil {
+			select {
+			case <-s.ack:
+			case <-time.After(c12Watchdog):
+			}
+		}
+	}
+	release = func(underLock bool) {
+		if held < 0 {
+			return
+		}
+		heldMu.Lock()
+		rel := heldRel
+		heldMu.Unlock()
+		close(rel)
+		waitAck(held)
+		if underLock {
+			// another Shutdown is in progress (waiting for sourcesLock): a handler failure does not terminate the source by itself
+			if atomic.LoadInt32(&ctx.failed) == 1 {
+				failChecked = true
+			}
+		} else {
+			checkFail()
+		}
+		if waiter >= 0 {
+			atomic.StoreInt32(&gateOn, 0)
+			heldMu.Lock()
+			close(gateCh)
+			heldMu.Unlock()
+			waitAck(waiter)
+		}
+		held, waiter = -1, -1
+	}
 	for _, c := range in.Cmds {
 		switch c.Op {
 		case "round":
@@ -853,24 +978,36 @@ func c12ExecMux(in *c12In) *c12Obs {
 				isParked = waitParked()
 			}
 		case "deliver":
-			if s := inner(c.K); s != nil {
-				s.deliver()
-			}
-			if atomic.LoadInt32(&ctx.failed) == 1 && !failChecked {
-				// the handler just failed: by now (no other Shutdown needed) the multiplexed source must be
-				// terminated and every inner source it started must be shut down
-				failChecked = true
-				if !mx.IsTerminated() {
-					failShutOK = false
-				}
-				ctx.mu.Lock()
-				for _, s := range ctx.inners {
-					if atomic.LoadInt32(&s.expect) == 1 && !s.IsTerminating() {
-						failShutOK = false
+			s := inner(c.K)
+			switch {
+			case s == nil:
+			case held >= 0:
+				// a call is parked inside the handler: one other source may run into handlerLock and wait there
+				if c.K != held && waiter < 0 {
+					heldMu.Lock()
+					gateCh = make(chan struct{})
+					heldMu.Unlock()
+					atomic.StoreInt32(&gateOn, 1)
+					if s.deliverUntil(s.entering) == 2 {
+						waiter = c.K
+					} else {
+						atomic.StoreInt32(&gateOn, 0)
 					}
 				}
-				ctx.mu.Unlock()
+			case atomic.LoadInt32(&holdArmed) == 1:
+				if s.deliverUntil(heldSig) == 2 {
+					held = c.K
+				}
+			default:
+				s.deliver()
 			}
+			checkFail()
+		case "hold":
+			if held < 0 {
+				atomic.StoreInt32(&holdArmed, 1)
+			}
+		case "release":
+			release(false)
 		case "shutdown":
 			shutOnce.Do(func() {})
 			d := make(chan struct{})
@@ -883,7 +1020,8 @@ func c12ExecMux(in *c12In) *c12Obs {
 			armed.Store(c)
 		}
 	}
-	// finish: make sure a Shutdown was called, release the Run goroutine for good
+	// finish: let a parked handler call return, make sure a Shutdown was called, release the Run goroutine for good
+	release(false)
 	d := make(chan struct{})
 	go func() { doShutdown(); close(d) }()
 	select {
@@ -934,7 +1072,15 @@ func c12ExecMuxStress(in *c12In) *c12Obs {
 	bstream.SetVerifSourceReconnectDelay(time.Duration(50+r.Intn(200)) * time.Microsecond)
 	bstream.SetVerifHook(nil)
 	var mx *bstream.MultiplexedSource
+	inCalls := int32(0)
 	work := func() {
+		if n := int(atomic.AddInt32(&inCalls, 1)); in.SlowAt > 0 && n == in.SlowAt {
+			// a long handler call during which the source is shut down: the other inner sources queue up on
+			// handlerLock meanwhile, Shutdown completes and Run returns before this call does
+			time.Sleep(300 * time.Microsecond)
+			go mx.Shutdown(nil)
+			time.Sleep(2 * time.Millisecond)
+		}
 		for i := 0; i < 50; i++ {
 			if atomic.LoadInt32(&ctx.active) > 1 {
 				atomic.StoreInt32(&ctx.overlap, 1)
@@ -970,35 +1116,21 @@ func c12ExecMuxStress(in *c12In) *c12Obs {
 	}
 	mx = bstream.NewMultiplexedSource(factories, h)
 	ctx.term = mx.IsTerminated
-	ctx.innerRet = func() bool {
-		ctx.mu.Lock()
-		defer ctx.mu.Unlock()
-		for _, s := range ctx.inners {
-			if atomic.LoadInt32(&s.started) == 1 {
-				select {
-				case <-s.done:
-				default:
-					return false
-				}
-			}
-		}
-		return true
-	}
 	runDone := make(chan struct{})
 	failNoShutdown := false
 	go func() {
 		defer func() { atomic.StoreInt32(&ctx.runRet, 1); close(runDone) }()
 		mx.Run()
 	}()
-	if in.FailAt == 0 || in.Inj.DelayUs > 0 {
+	if (in.FailAt == 0 && in.SlowAt == 0) || in.Inj.DelayUs > 0 {
 		time.Sleep(time.Duration(in.Inj.DelayUs) * time.Microsecond)
 		go mx.Shutdown(nil)
 	} else {
-		// wait for the handler failure to shut the source down; fall back to a Shutdown
+		// wait for the handler failure (or the slow handler call) to shut the source down; fall back to a Shutdown
 		select {
 		case <-mx.Terminating():
 		case <-time.After(300 * time.Millisecond):
-			if atomic.LoadInt32(&ctx.failed) == 1 {
+			if in.FailAt > 0 && atomic.LoadInt32(&ctx.failed) == 1 {
 				failNoShutdown = true // the handler failed and the source did not shut itself down
 			}
 			go mx.Shutdown(nil)
@@ -1132,6 +1264,10 @@ func coqCmds(cs []c12Cmd) string {
 			xs = append(xs, "CShutdown")
 		case "arm":
 			xs = append(xs, fmt.Sprintf("CArm %s %s", coqNat(c.Point), coqNat(c.N)))
+		case "hold":
+			xs = append(xs, "CHold")
+		case "release":
+			xs = append(xs, "CRelease")
 		}
 	}
 	return coqList(xs)
@@ -1223,6 +1359,11 @@ func c12Exec(raw json.RawMessage) (*Case, error) {
 	mode := in.Inj.Mode
 	if in.Kind == "mux" {
 		mode = "scenario"
+		for _, c := range in.Cmds {
+			if c.Op == "hold" {
+				mode = "scenario-hold" // a handler call is parked while other goroutines move
+			}
+		}
 	}
 	if in.Kind == "mux_stress" {
 		mode = "stress"
@@ -1336,10 +1477,42 @@ func c12Corpus() []any {
 	add(c12In{Kind: "mux", NSlots: 2, Supply: sup, Cmds: []c12Cmd{{Op: "round"}, {Op: "deliver", K: 0}, {Op: "shutdown"}, {Op: "deliver", K: 1}, {Op: "round"}}})
 	add(c12In{Kind: "mux", NSlots: 2, Supply: sup, Cmds: []c12Cmd{{Op: "shutdown"}, {Op: "round"}}})
 	add(c12In{Kind: "mux", NSlots: 1, Supply: nil, Cmds: nil})
+	// ---- multiplexed: an inner source waits for handlerLock while the source is shut down (defect D1 of the hypothesis
+	// audit: the wrapper called the handler after Terminated / after Run returned).  Source 0 is parked inside the
+	// handler (hold), source 1 runs into handlerLock (deliver 1), then:
+	d1 := [][]c12Ev{c12Blocks(1, 2, 0), c12Blocks(3, 2, 0), c12Blocks(5, 2, 0)}
+	d1f := [][]c12Ev{c12Blocks(1, 2, 1), c12Blocks(3, 2, 0), c12Blocks(5, 2, 0)}
+	hd := []c12Cmd{{Op: "round"}, {Op: "hold"}, {Op: "deliver", K: 0}, {Op: "deliver", K: 1}}
+	mk := func(rest ...c12Cmd) []c12Cmd { return append(append([]c12Cmd(nil), hd...), rest...) }
+	// complete external Shutdown, Run returns, then the call returns
+	add(c12In{Kind: "mux", NSlots: 2, Supply: d1, Cmds: mk(c12Cmd{Op: "shutdown"}, c12Cmd{Op: "round"}, c12Cmd{Op: "release"})})
+	// same, Run still parked when the call returns
+	add(c12In{Kind: "mux", NSlots: 2, Supply: d1, Cmds: mk(c12Cmd{Op: "shutdown"}, c12Cmd{Op: "release"}, c12Cmd{Op: "round"})})
+	// the handler FAILS on the parked call: its goroutine shuts the source down
+	add(c12In{Kind: "mux", NSlots: 2, Supply: d1f, Cmds: mk(c12Cmd{Op: "release"}, c12Cmd{Op: "round"})})
+	add(c12In{Kind: "mux", NSlots: 3, Supply: d1f, Cmds: mk(c12Cmd{Op: "deliver", K: 2}, c12Cmd{Op: "round"}, c12Cmd{Op: "release"}, c12Cmd{Op: "deliver", K: 2}, c12Cmd{Op: "round"})})
+	// Shutdown from inside the parked call / at mux.handler_unlocked of the parked call / at mux.handler_locked of the waiting source
+	add(c12In{Kind: "mux", NSlots: 2, Supply: d1, Cmds: append([]c12Cmd{{Op: "arm", Point: 27, N: 1}}, mk(c12Cmd{Op: "round"}, c12Cmd{Op: "release"})...)})
+	add(c12In{Kind: "mux", NSlots: 2, Supply: d1, Cmds: append([]c12Cmd{{Op: "arm", Point: 26, N: 1}}, mk(c12Cmd{Op: "release"}, c12Cmd{Op: "round"})...)})
+	add(c12In{Kind: "mux", NSlots: 2, Supply: d1, Cmds: append([]c12Cmd{{Op: "arm", Point: 25, N: 2}}, mk(c12Cmd{Op: "release"}, c12Cmd{Op: "round"})...)})
+	// Shutdown started under sourcesLock (terminating channel closed, callback waiting for the lock): the parked call is
+	// released there, the waiting source makes its test while the source is terminating and not yet terminated
+	add(c12In{Kind: "mux", NSlots: 2, Supply: d1, Cmds: append([]c12Cmd{{Op: "arm", Point: 22, N: 2}}, mk(c12Cmd{Op: "round"}, c12Cmd{Op: "round"})...)})
+	add(c12In{Kind: "mux", NSlots: 2, Supply: d1f, Cmds: append([]c12Cmd{{Op: "arm", Point: 22, N: 2}}, mk(c12Cmd{Op: "round"}, c12Cmd{Op: "round"})...)})
+	add(c12In{Kind: "mux", NSlots: 3, Supply: [][]c12Ev{c12Blocks(1, 2, 0), c12Blocks(3, 2, 0), {{Fail: true}}, c12Blocks(7, 2, 0)},
+		Cmds: []c12Cmd{{Op: "round"}, {Op: "deliver", K: 2}, {Op: "hold"}, {Op: "deliver", K: 0}, {Op: "deliver", K: 1}, {Op: "arm", Point: 23, N: 4}, {Op: "round"}, {Op: "round"}}})
+	// no Shutdown: the waiting source makes its call once the lock is free (the repair must not drop it)
+	add(c12In{Kind: "mux", NSlots: 2, Supply: d1, Cmds: mk(c12Cmd{Op: "release"}, c12Cmd{Op: "deliver", K: 1}, c12Cmd{Op: "deliver", K: 0}, c12Cmd{Op: "round"})})
+	// the scenario ends with the call still parked (released by the finish), Shutdown during the reconnect of a failed source
+	add(c12In{Kind: "mux", NSlots: 2, Supply: [][]c12Ev{c12Blocks(1, 2, 0), {{Fail: true}}, c12Blocks(5, 2, 0)},
+		Cmds: []c12Cmd{{Op: "round"}, {Op: "deliver", K: 1}, {Op: "hold"}, {Op: "deliver", K: 0}, {Op: "arm", Point: 23, N: 1}, {Op: "round"}, {Op: "deliver", K: 2}}})
 	add(c12In{Kind: "mux", NSlots: 0, Supply: nil, Cmds: []c12Cmd{{Op: "round"}, {Op: "round"}}})
 	// ---- multiplexed: stress
 	add(c12In{Kind: "mux_stress", NSlots: 3, Supply: [][]c12Ev{c12Blocks(1, 40, 0), c12Blocks(100, 40, 0), c12Blocks(200, 40, 0)}, Seed: 7, FailAt: 25})
 	add(c12In{Kind: "mux_stress", NSlots: 2, Supply: [][]c12Ev{c12Blocks(1, 40, 0), c12Blocks(100, 40, 0)}, Seed: 9, Inj: c12Inj{DelayUs: 700}})
+	// a 2 ms handler call during which Shutdown is called: the other sources queue up on handlerLock, Run returns meanwhile
+	add(c12In{Kind: "mux_stress", NSlots: 3, Supply: [][]c12Ev{c12Blocks(1, 40, 0), c12Blocks(100, 40, 0), c12Blocks(200, 40, 0)}, Seed: 11, SlowAt: 5})
+	add(c12In{Kind: "mux_stress", NSlots: 2, Supply: [][]c12Ev{c12Blocks(1, 40, 0), c12Blocks(100, 40, 0)}, Seed: 12, SlowAt: 9, FailAt: 9})
 	return out
 }
 
@@ -1466,13 +1639,17 @@ func c12Gen(r *Rng, i int, tier string) any {
 		var cmds []c12Cmd
 		nc := r.Intn(12)
 		for k := 0; k < nc; k++ {
-			switch r.Intn(10) {
+			switch r.Intn(13) {
 			case 0, 1, 2:
 				cmds = append(cmds, c12Cmd{Op: "round"})
 			case 3, 4, 5, 6, 7:
 				cmds = append(cmds, c12Cmd{Op: "deliver", K: r.Intn(5)})
 			case 8:
 				cmds = append(cmds, c12Cmd{Op: "arm", Point: []int{20, 21, 22, 23, 24, 25, 26, 27}[r.Intn(8)], N: 1 + r.Intn(4)})
+			case 10, 11:
+				cmds = append(cmds, c12Cmd{Op: "hold"})
+			case 12:
+				cmds = append(cmds, c12Cmd{Op: "release"})
 			case 9:
 				if r.Chance(30) {
 					cmds = append(cmds, c12Cmd{Op: "shutdown"})
@@ -1493,10 +1670,13 @@ func c12Gen(r *Rng, i int, tier string) any {
 			sup = append(sup, sc)
 		}
 		in := c12In{Kind: "mux_stress", NSlots: ns, Supply: sup, Seed: r.U64() % 100000}
-		if r.Chance(50) {
+		switch r.Intn(6) {
+		case 0, 1, 2:
 			in.FailAt = 1 + r.Intn(40)
-		} else {
+		case 3, 4:
 			in.Inj.DelayUs = r.Intn(2500)
+		default:
+			in.SlowAt = 1 + r.Intn(15)
 		}
 		return in
 	}
